@@ -21,8 +21,11 @@ CLAIMED = {
                      "kernel contracts on SU(2) algebra are proved where built.",
                 note=KERNEL_NOTE + "; A-MATH: common-unitary invariance", technique=TECH_B + "; " + TECH_S),
     "C03": dict(level="other", design="3/C03",
-                text="Bounded runtime contract: partial sums over all chain subsets, homogeneity in the coupling, fit-fraction sum rule and batch independence on real models.",
-                note=KERNEL_NOTE, technique=TECH_B),
+                text="Linear superposition PROVED modularly on the real amplitude code for 5 decay structures (spins 0, 1/2, 1, 3/2; 3- and 4-body): every chain amplitude == its own "
+                     "coupling x (helicity sum of vertex amplitudes, line shapes, alignment matrices) with the coupling-free factor, DecayGroup.get_amp == sum of the selected chains and "
+                     "density == sum_helicities |.|^2 for EVERY subset of chains / resonances selected through set_used_chains / set_used_res (callees as arbitrary tensors of the real "
+                     "shapes). Fit-fraction sum rule, fraction definitions and gradients proved with jets (R <= 4). Bounded: partial sums, homogeneity, fractions, batch independence on real models.",
+                note=KERNEL_NOTE + "; structures with identical-particle symmetrisation are bounded only", technique=TECH_S + " + jets; " + TECH_B),
     "C04": dict(level="other", design="3/C04",
                 text="Amplitude stage PROVED for all inputs: the real pipeline AmplitudeModel.__call__ -> DecayGroup.sum_amp -> DecayChain/HelicityDecay/Particle.get_amp -> dfun "
                      "is executed on a data dictionary of symbols and equals the closed form of the statement as an identity in every event quantity, mass, width and coupling, for "
@@ -32,7 +35,8 @@ CLAIMED = {
                 note=KERNEL_NOTE + "; the composition kinematic stage -> amplitude stage is argued in DESIGN 3/C04, not machine-checked", technique=TECH_S + "; " + TECH_B),
     "C05": dict(level="other", design="3/C05",
                 text="Bounded runtime contract over the selectable evaluation strategies (cached, factorised, p4, tf.function/XLA, lazy, cached likelihoods) vs plain eager evaluation; "
-                     "custom einsum vs reference contraction proved per (expression, shape) for all tensor values where built.",
+                     "custom einsum vs reference contraction proved per (expression, shape) for all tensor values, for every index order / contraction path its callees may return, "
+                     "and for every contraction the amplitude builder emits on 5 decay structures (chain assembly, shared with C03); never beyond TensorFlow's broadcast limit.",
                 note=KERNEL_NOTE + "; TF graph/XLA compilation is exercised only by the bounded comparison", technique=TECH_B + "; " + TECH_S),
     "C06": dict(level="other", design="3/C06",
                 text="Value formula of BaseModel.nll / Model.nll (incl. background blending and the alpha factor) proved symbolically at tensor lengths <= 3; batch partition proved for all sizes "
